@@ -27,6 +27,7 @@ func init() {
 	extractors["C18"] = func(e *ext) {
 		c18MoreFacts(e)
 		c18PoolFacts(e)
+		c18HeadroomFacts(e)
 		d := "pkg/descheduler/framework/plugins/loadaware"
 		e.constInt(d, "MinResourcePercentage", "MinResourcePercentage")
 		e.constInt(d, "MaxResourcePercentage", "MaxResourcePercentage")
@@ -554,4 +555,160 @@ func c18PoolFacts(e *ext) {
 		}
 	}
 	fmt.Fprintf(&e.out, "def processedSharedByPools : Bool := %v\n", shared)
+}
+
+// c18HeadroomFacts (extension round 5): evictPodsFromSourceNodes as a list of steps on the headroom maps, in source order.
+// Local variables are named by where they come from, so renaming them does not trip the tie:
+//
+//	avail(<param>,<prod>)  a map returned by targetAvailableUsage(<param>, _, <prod>)   (<param>: a parameter of the function)
+//	fresh#k                the k-th map returned by newAvailableUsage
+//	m[]                    an element of map m (index expression, `if q, ok := m[k]; ok`, range value)
+//
+// Steps: method calls on such a value ("recv.Add(arg)"), assignments to one ("lhs=rhs"), and the balancePods calls with the
+// headroom map they get; each followed by " if <recv.Cmp(arg)><op><lit>>" / " if not <…>" for the enclosing quantity
+// comparisons (presence tests `…; ok` are transparent).
+func c18HeadroomFacts(e *ext) {
+	d := "pkg/descheduler/framework/plugins/loadaware"
+	var steps []string
+	fd := e.funcDecl(d, "", "evictPodsFromSourceNodes")
+	if fd == nil || fd.Body == nil {
+		e.fail("evictPodsFromSourceNodes not found")
+		fmt.Fprintf(&e.out, "def headroomSteps : List String := []\n")
+		return
+	}
+	fresh := 0
+	var canon func(x ast.Expr, sc map[string]string) string
+	canon = func(x ast.Expr, sc map[string]string) string {
+		switch v := x.(type) {
+		case *ast.Ident:
+			if o, ok := sc[v.Name]; ok {
+				return o
+			}
+			return v.Name
+		case *ast.StarExpr:
+			return canon(v.X, sc)
+		case *ast.ParenExpr:
+			return canon(v.X, sc)
+		case *ast.UnaryExpr:
+			return v.Op.String() + canon(v.X, sc)
+		case *ast.IndexExpr:
+			return canon(v.X, sc) + "[]"
+		case *ast.BasicLit:
+			return v.Value
+		case *ast.CallExpr:
+			if se, ok := v.Fun.(*ast.SelectorExpr); ok {
+				return canon(se.X, sc) + "." + se.Sel.Name + "()"
+			}
+		}
+		return "?"
+	}
+	tracked := func(s string) bool { return strings.Contains(s, "avail(") || strings.Contains(s, "fresh#") }
+	condStr := func(x ast.Expr, sc map[string]string) string {
+		be, ok := x.(*ast.BinaryExpr)
+		if !ok {
+			return ""
+		}
+		c, ok := be.X.(*ast.CallExpr)
+		if !ok || len(c.Args) != 1 {
+			return ""
+		}
+		se, ok := c.Fun.(*ast.SelectorExpr)
+		if !ok || !tracked(canon(se.X, sc)) {
+			return ""
+		}
+		return canon(se.X, sc) + "." + se.Sel.Name + "(" + canon(c.Args[0], sc) + ")" + be.Op.String() + canon(be.Y, sc)
+	}
+	ext1 := func(sc map[string]string, k, v string) map[string]string {
+		out := map[string]string{}
+		for a, b := range sc {
+			out[a] = b
+		}
+		out[k] = v
+		return out
+	}
+	var walk func(list []ast.Stmt, sc map[string]string, guard string)
+	walk = func(list []ast.Stmt, sc map[string]string, guard string) {
+		for _, st := range list {
+			switch v := st.(type) {
+			case *ast.BlockStmt:
+				walk(v.List, sc, guard)
+			case *ast.IfStmt:
+				in := sc
+				if as, ok := v.Init.(*ast.AssignStmt); ok && as.Tok == token.DEFINE && len(as.Rhs) == 1 {
+					if ix, ok := as.Rhs[0].(*ast.IndexExpr); ok {
+						if id, ok := as.Lhs[0].(*ast.Ident); ok && id.Name != "_" {
+							in = ext1(sc, id.Name, canon(ix, sc))
+						}
+					}
+				}
+				c := condStr(v.Cond, in)
+				g, ng := guard, guard
+				if c != "" {
+					g, ng = guard+" if "+c, guard+" if not "+c
+				}
+				walk(v.Body.List, in, g)
+				if v.Else != nil {
+					walk([]ast.Stmt{v.Else}, in, ng)
+				}
+			case *ast.ForStmt:
+				walk(v.Body.List, sc, guard)
+			case *ast.RangeStmt:
+				in := sc
+				if id, ok := v.Value.(*ast.Ident); ok && v.Tok == token.DEFINE && id.Name != "_" && tracked(canon(v.X, sc)) {
+					in = ext1(sc, id.Name, canon(v.X, sc)+"[]")
+				}
+				walk(v.Body.List, in, guard)
+			case *ast.ExprStmt:
+				c, ok := v.X.(*ast.CallExpr)
+				if !ok {
+					continue
+				}
+				switch f := c.Fun.(type) {
+				case *ast.Ident:
+					if f.Name == "balancePods" {
+						got := "?"
+						for _, a := range c.Args {
+							if s := canon(a, sc); tracked(s) {
+								got = s
+							}
+						}
+						steps = append(steps, "balancePods("+got+")"+guard)
+					}
+				case *ast.SelectorExpr:
+					if r := canon(f.X, sc); tracked(r) {
+						var as []string
+						for _, a := range c.Args {
+							as = append(as, canon(a, sc))
+						}
+						steps = append(steps, r+"."+f.Sel.Name+"("+strings.Join(as, ",")+")"+guard)
+					}
+				}
+			case *ast.AssignStmt:
+				if v.Tok == token.DEFINE && len(v.Rhs) == 1 {
+					if c, ok := v.Rhs[0].(*ast.CallExpr); ok {
+						if f, ok := c.Fun.(*ast.Ident); ok {
+							if id, ok := v.Lhs[0].(*ast.Ident); ok {
+								switch {
+								case f.Name == "targetAvailableUsage" && len(c.Args) == 3:
+									sc[id.Name] = "avail(" + canon(c.Args[0], sc) + "," + canon(c.Args[2], sc) + ")"
+									continue
+								case f.Name == "newAvailableUsage":
+									fresh++
+									sc[id.Name] = fmt.Sprintf("fresh#%d", fresh)
+									continue
+								}
+							}
+						}
+					}
+				}
+				for i, l := range v.Lhs {
+					if s := canon(l, sc); tracked(s) && i < len(v.Rhs) {
+						steps = append(steps, s+v.Tok.String()+canon(v.Rhs[i], sc)+guard)
+					}
+				}
+			}
+		}
+	}
+	walk(fd.Body.List, map[string]string{}, "")
+	fmt.Fprintf(&e.out, "def headroomSteps : List String := %s\n", c18LeanList(steps))
 }
